@@ -250,7 +250,9 @@ int cmd_eval_pure(const Args& a)
     long n = 0, nfresh = 0;
     PositionScorer sc;   // this driver's own long-lived evaluator
     FILE* o = f[0];
+    std::set<std::string> seen_fens;
     auto emit = [&](Position& p, const char* src) {
+        seen_fens.insert(p.fen());
         long v = (long)sc.score(p);
         bool want_fresh = (n % fresh_every) == 0 || p.pieces(PAWN) == 0;
         if (want_fresh)
@@ -291,6 +293,33 @@ int cmd_eval_pure(const Args& a)
             o = f[n % shards];
             emit(p, c.name);
         }
+    // shuffle phase: the same positions again in random order, so that every evaluation follows an UNRELATED position (scratch state
+    // left by the previous call must not leak); every value is compared with the fresh evaluator's value of that position
+    {
+        std::vector<std::string> fens(seen_fens.begin(), seen_fens.end());
+        std::shuffle(fens.begin(), fens.end(), rng);
+        if ((long)fens.size() > a.i("shuffle-max", 4000)) fens.resize(a.i("shuffle-max", 4000));
+        std::map<std::string, long> fresh;
+        for (auto& fe : fens)
+        {
+            std::unique_ptr<PositionScorer> fr(new PositionScorer());
+            Position q(fe);
+            fresh[fe] = (long)fr->score(q);
+            nfresh++;
+        }
+        for (int round = 0; round < 3; ++round)
+        {
+            std::shuffle(fens.begin(), fens.end(), rng);
+            for (auto& fe : fens)
+            {
+                Position q(fe);
+                long v = (long)sc.score(q);
+                fprintf(f[n % shards], "{\"e\":\"eval\",\"src\":\"shuffle\",\"fen\":%s,\"v\":%ld,\"vf\":%ld,\"pk0\":%s}\n", jstr(fe).c_str(), v, fresh[fe],
+                        jbool(q.pawn_hash() == 0).c_str());
+                n++;
+            }
+        }
+    }
     for (auto h : f) fclose(h);
     fprintf(stderr, "eval-pure: %ld evaluations, %ld against a fresh evaluator\n", n, nfresh);
     return 0;
